@@ -849,6 +849,20 @@ def lang2():
     body = [Let('a', DT, ArrLit(DT, [X, Lit(5, I64)])), Append(a, Y), Append(a, Bin('-', X, Y)), Let('s', I64, Lit(0, I64)),
             ForIn('i', 'v', a, [OpAssign(Var('s', I64), '+', Bin('+', Var('v', I64), Cast(Var('i', I32), I64)))]), Return(Var('s', I64))]
     out.append(Template('lang/forin_dynarray', fn2(body), family='lang'))
+    # results: error / success chosen by a parameter; catch with a handler that prints, catch with a bare fallback,
+    # catch whose handler returns from the enclosing function
+    for ety, oty in ((I32, I32), (I8, I64), (I64, I16)):
+        RT = ResT(ety, oty)
+        a, b = Var('a', I64), Var('b', I64)
+        chk = Func('chk', [('a', I64), ('b', I64)], RT, [If(Cmp('==', b, Lit(0, I64)), [ReturnErr(Cast(a, ety))]), Return(Cast(Bin('-', a, b), oty))])
+        tag = '%s_%s' % (ety.name, oty.name)
+        body = [Let('r', oty, Catch(Call('chk', [X, Y], RT), Lit(-1, oty), 'e', [Print(Var('e', ety))])),
+                Let('s', oty, Catch(Call('chk', [Y, X], RT), Lit(-2, oty))),
+                Return(Bin('+', Cast(Var('r', oty), I64), Cast(Var('s', oty), I64)))]
+        out.append(Template('lang/result_catch/%s' % tag, fn2(body, extra=[chk]), family='lang'))
+        body = [Let('r', oty, Catch(Call('chk', [X, Y], RT), Lit(0, oty), 'e', [Return(Bin('+', Cast(Var('e', ety), I64), Lit(100, I64)))])),
+                Return(Cast(Var('r', oty), I64))]
+        out.append(Template('lang/result_catch_return/%s' % tag, fn2(body, extra=[chk]), family='lang'))
     # a call with five parameters of different widths, evaluated left to right
     h = Func('h', [('a', I8), ('b', U16), ('c', I32), ('d', U64), ('e', BOOL)], I64,
              [If(Var('e', BOOL), [Return(Bin('+', Bin('+', Cast(Var('a', I8), I64), Cast(Var('b', U16), I64)), Cast(Var('c', I32), I64)))]), Return(Cast(Var('d', U64), I64))])
